@@ -16,6 +16,7 @@
 //!     (only with the additional `--cfg fast_tlsh_verif_invariants`).
 
 pub use crate::compare::dist_body::verif_hooks as dist_body;
+pub use crate::generate::bucket_aggregation::verif_hooks as bucket_aggregation;
 
 /// The explicit internal state of a generator.
 ///
